@@ -980,6 +980,133 @@ func checkWarnings(p *Program, r *Report, pk *ssa.Package, runner *ssa.Function)
 	}
 	_ = strings.Contains
 
+	// R17.9: a supplied series is copied into the input array only if its length is the array's time extent
+	r.Rule("R17.9", "unequal-length inputs are a reported problem, not a copy: every path from the lookup of a supplied series to the call that copies it into the input array passes either the allocation of that array with this series' length as its time extent, or the equal side of a comparison of this series' length with another length; a path that reaches the copy unchecked writes past the row, into the next row, or pads silently")
+	nLen := 0
+	for _, c := range applyCalls {
+		nm := callName(c.Common())
+		if nm != "Apply" && nm != "ApplySlice" && nm != "Apply1" {
+			continue
+		}
+		recv := recvOf(c.Common())
+		if recv == nil || !isNDType(recv.Type()) {
+			continue
+		}
+		args := callArgs(c.Common())
+		if len(args) < 4 {
+			continue
+		}
+		series := origin1(args[3])
+		fc, ok := series.(*ssa.Call)
+		if !ok || callName(fc.Common()) != "Find" {
+			continue
+		}
+		nLen++
+		fn := c.Parent()
+		isLenOfSeries := func(v ssa.Value) bool {
+			lc, ok := origin1(v).(*ssa.Call)
+			if !ok {
+				return false
+			}
+			b, ok := lc.Common().Value.(*ssa.Builtin)
+			return ok && b.Name() == "len" && len(lc.Common().Args) == 1 && origin1(lc.Common().Args[0]) == series
+		}
+		// blocks that allocate the array from this series' length
+		alloc := map[*ssa.BasicBlock]bool{}
+		for _, c2 := range callsIn(fn) {
+			if strings.HasPrefix(callName(c2.Common()), "NewArray") {
+				a2 := c2.Common().Args
+				if len(a2) > 0 && isLenOfSeries(a2[len(a2)-1]) {
+					alloc[c2.Block()] = true
+				}
+			}
+		}
+		reach := reachable(fc.Block(), func(from *ssa.BasicBlock, i int) bool {
+			if alloc[from.Succs[i]] {
+				return true
+			}
+			iff, ok := from.Instrs[len(from.Instrs)-1].(*ssa.If)
+			if !ok {
+				return false
+			}
+			cnd, val := normCond(iff.Cond, i == 0)
+			bo, ok := cnd.(*ssa.BinOp)
+			if !ok || (bo.Op != token.EQL && bo.Op != token.NEQ) {
+				return false
+			}
+			var other ssa.Value
+			if isLenOfSeries(bo.X) {
+				other = bo.Y
+			} else if isLenOfSeries(bo.Y) {
+				other = bo.X
+			} else {
+				return false
+			}
+			if _, isConst := other.(*ssa.Const); isConst {
+				return false
+			}
+			// the edge on which the lengths are equal is a checked way in
+			return bo.Op == token.EQL && val || bo.Op == token.NEQ && !val
+		})
+		key := "sim.Initialise:input-length"
+		if alloc[fc.Block()] {
+			reach = map[*ssa.BasicBlock]bool{}
+		}
+		if reach[c.Block()] && !alloc[c.Block()] {
+			r.Fail("R17.9", key, p.Pos(c.Pos()), "a supplied input series can reach the copy into the input array without its length having been compared with the array's time extent: a later series that is longer runs past its row (a crash after the document, or a spill into the next input), a shorter one is zero-padded without a report")
+		} else {
+			r.OK("R17.9", "sim.Initialise: every supplied series is length-checked (or sizes the array) before it is copied in")
+		}
+	}
+	if nLen == 0 {
+		r.Undecided("R17.9", "sim.Initialise:input-length", p.Pos(initialise.Pos()), "no copy of a looked-up input series found")
+	}
+
+	// R17.10: the whole request is decoded
+	r.Rule("R17.10", "the request is decoded from the caller's reader itself: the argument of json.NewDecoder in the runner is the runner's own io.Reader parameter (a buffering wrapper is accepted); a limiting or transforming wrapper makes the answer depend on the size of the request")
+	{
+		nDec := 0
+		for _, c := range callsIn(runner) {
+			f := c.Common().StaticCallee()
+			if f == nil || f.Name() != "NewDecoder" || fnPkg(f) == nil || fnPkg(f).Path() != "encoding/json" || len(c.Common().Args) != 1 {
+				continue
+			}
+			nDec++
+			key := FuncKey(runner) + ":decoder-source"
+			v := c.Common().Args[0]
+			bad := ""
+			for depth := 0; depth < 6; depth++ {
+				v = origin1(stripConv(v))
+				if prm, ok := v.(*ssa.Parameter); ok && prm.Parent() == runner {
+					break
+				}
+				if call, ok := v.(*ssa.Call); ok {
+					g := call.Common().StaticCallee()
+					if g != nil && fnPkg(g) != nil && fnPkg(g).Path() == "bufio" && strings.HasPrefix(g.Name(), "NewReader") && len(call.Common().Args) >= 1 {
+						v = call.Common().Args[0]
+						continue
+					}
+					name := callName(call.Common())
+					if g != nil && fnPkg(g) != nil {
+						name = fnPkg(g).Path() + "." + g.Name()
+					}
+					bad = "the result of " + name
+					break
+				}
+				bad = "a value that is not the runner's reader parameter"
+				break
+			}
+			if bad != "" {
+				r.Fail("R17.10", key, p.Pos(c.Pos()), fmt.Sprintf("the request is decoded from %s, not from the caller's reader: a well-formed request can be cut short or altered before it is parsed, so it is answered with a problem document (or different results) depending on its size", bad))
+			} else {
+				r.OK("R17.10", FuncKey(runner)+": json.NewDecoder reads the caller's reader")
+			}
+		}
+		if nDec == 0 {
+			r.Undecided("R17.10", FuncKey(runner)+":decoder-source", p.Pos(runner.Pos()), "no json.NewDecoder call found in the runner")
+		}
+	}
+
 	// R17.8: the conversion to the result tree is read-only on the arrays it converts
 	r.Rule("R17.8", "encoding is read-only: no function of io/json (JsonSafeArray, JsonSafeValue and their helpers) may write through an array argument — element stores, mutating ND methods, or writes into the slices Shape()/NewIndex hand out that alias the array's own metadata (effect summaries, interprocedural)")
 	eff := nil2eff(p)
